@@ -67,7 +67,12 @@ func hiddenCounter(s MState) bool {
 }
 
 // exec runs one edge on sys and returns the list of disagreements.
+var httpRand = rand.New(rand.NewSource(1))
+
 func execEdge(sys *Sys, g *Graph, e Edge, probe bool, httpMode bool) ([]string, Outcome) {
+	if e.Req != nil {
+		return execHTTP(sys, g, e, probe, httpRand)
+	}
 	var out Outcome
 	if e.Op.Op == "reopen" {
 		out, _ = sys.Reopen()
@@ -127,6 +132,10 @@ func (w *walker) step(ei int) bool {
 		return true
 	}
 	// A disagreement. Reproduce it on a fresh system before believing it.
+	if e.Req != nil {
+		e.Op = Op{Op: "http:" + e.Req.Path, Who: e.Req.Whois.Kind + "/" + e.Req.Whois.Plain + "/" + e.Req.Whois.Https,
+			Name: e.Req.Method + " " + e.Req.Ctype + " " + e.Req.Hdr, Val: e.Req.Body.Class, Ver: e.Req.Body.Args.Ver, Fault: e.HTTP.Gate, Reply: Reply{Class: e.HTTP.Status}}
+	}
 	key := "edge " + opKindKey(e.Op) + " :: " + strings.Join(bad, " ; ")
 	w.res.Add("disagreements", 1)
 	if w.res.Counters["disagreements"] < 40 {
@@ -302,6 +311,7 @@ func TestReplayGraph(t *testing.T) {
 	whoFilter := os.Getenv("VERIF_WHO_NOT") // e.g. "su": only non-superuser callers are targets
 	sample := vh.EnvInt("VERIF_SAMPLE_PCT", 100)
 	rnd := vh.Rand(int64(shard) + 101)
+	httpRand = vh.Rand(int64(shard) + 977)
 	w := &walker{t: t, g: g, res: res, d: NewDict(vh.Seed()), httpMode: os.Getenv("VERIF_MODE") == "http",
 		covered: make([]bool, len(g.Edges)), target: make([]bool, len(g.Edges)), pending: make([]int, len(g.States)),
 		cursor: make([]int, len(g.States)), visited: map[int]bool{}, probeN: vh.EnvInt("VERIF_PROBE_EVERY", 8), base: dir,
